@@ -1,0 +1,23 @@
+//go:build verif
+
+// Contracts for govc (see /verif/DESIGN.md). Comment-only: no executable code with or without the tag.
+
+package requester
+
+//@ import net "net"
+//@ import dns "github.com/refraction-networking/conjure/pkg/registrars/dns-registrar/dns"
+
+// ---------------- C15: the requester side of the DNS channel ----------------
+// "values an encoder cannot represent are rejected with an error rather than silently altered": the query name is the
+// encoded payload's labels FOLLOWED BY the base domain, and it is this complete list that dns.NewName validates (label
+// lengths and the 255-octet limit of a name - nothing later on the encode path checks it); the name that goes on the
+// wire is exactly the one NewName accepted, and a rejected name sends nothing.
+//@ func (c *DNSPacketConn) send(transport net.Conn, p []byte) error
+//@   requires c != nil && transport != nil
+//@   atcall dns.NewName before: assert @C15: len(arg0) >= len(c.domain) && (forall i int :: 0 <= i && i < len(c.domain) ==> arg0[len(arg0) - len(c.domain) + i] == c.domain[i])
+//@   atcall dns.NewName after: snap validated := res0
+//@   atcall dns.NewName after: snap nameErr := res1
+//@   atcall Message).WireFormat before: assert @C15: defined(validated) && nameErr == nil && len(arg0.Question) == 1 && arg0.Question[0].Name == validated
+//@   atcall net.Conn).Write before: assert @C15: defined(validated) && nameErr == nil
+//@   ensures @C15: true
+//@   checks structure
